@@ -31,7 +31,7 @@ def configs(tier, rng):
     cfgs = []
     base = dict(NSs={1, 2, 3}, IntChoices={True, False}, EConChoices={0, 11, 12}, RowSupps={0})
     if tier == 'quick':
-        cfgs.append(dict(base, SuppKinds={1, 7, 4}, ProbKinds={1, 2, 4}, ExptKinds={0}, Forms={'B'}, PieceSets={rng.choice([1, 2, 3, 4, 5]), 6}, Parts={0}, Affs={'a0'}, EConChoices={0, 11}))
+        cfgs.append(dict(base, SuppKinds={1, 7, 4}, ProbKinds={1, 2, 4}, ExptKinds={0}, Forms={'B'}, PieceSets={rng.choice([1, 2, 3, 4, 5]), 6}, Parts={0}, Affs={'a0'}, EConChoices={0, 11, 108, 111}))
         cfgs.append(dict(base, SuppKinds={3, 5, 6}, ProbKinds={3, 5}, ExptKinds={1, 2, 3, 4, 5, 6}, Forms={'B'}, PieceSets={rng.choice([1, 2, 3, 4, 5]), 7}, Parts={0}, Affs={'a0'}, EConChoices={0, 12}, IntChoices={False}))
         cfgs.append(dict(base, SuppKinds={8, 7, 4}, ProbKinds={1, 2, 5}, ExptKinds={0, 1, 3}, Forms={'A'}, PieceSets={1, rng.choice([2, 3, 4])}, Parts={0, 1, 2}, Affs={'a0', 'a1', 'a12'}, EConChoices={0}, IntChoices={False}))
         cfgs.append(dict(base, SuppKinds={1, 5, 6}, ProbKinds={1, 3, 4}, ExptKinds={0, 2, 4, 5}, Forms={'A'}, PieceSets={rng.choice([1, 5]), 3}, Parts={0, 1, 2}, Affs={'a0', 'a12'}, EConChoices={0, 11}, IntChoices={False}))
